@@ -342,7 +342,11 @@ class LogWorld:
     def __init__(self, kind, fmt, loglevel="info"):
         import gunicorn.glogging
         # loglevel is documented as "the granularity of Error log outputs": the access log must not depend on it
-        self.W = L.World(kind, access_fmt=fmt, fixed_time=True, extra={"loglevel": loglevel})
+        # ... nor on where the ERROR log goes: `loglevel` may carry a destination variant, "<level>|<variant>"
+        level, _, variant = loglevel.partition("|")
+        extra = {"loglevel": level}
+        extra.update(LOGDEST[variant])
+        self.W = L.World(kind, access_fmt=fmt, fixed_time=True, extra=extra)
         self.W.__enter__()
         self.fmt = self.W.cfg.access_log_format          # the setting's validator strips the string
         self.spy = B64Spy()
@@ -604,7 +608,15 @@ def run(ctx):
         search(ctx)
 
 
-LOGLEVELS = ["info", "warning", "debug", "error", "critical"]
+# every one of these configurations has a destination for access records (Logger.access: accesslog, a logconfig, or syslog that
+# access records are not kept out of): exactly one record per request in each
+LOGDEST = {
+    "": {},
+    "syslog-errors-only": {"syslog": True, "syslog_addr": "udp://127.0.0.1:9", "disable_redirect_access_to_syslog": True},
+    "syslog-too": {"syslog": True, "syslog_addr": "udp://127.0.0.1:9"},
+    "syslog-only": {"accesslog": None, "syslog": True, "syslog_addr": "udp://127.0.0.1:9"},
+}
+LOGLEVELS = ["info", "warning", "debug|syslog-errors-only", "error", "critical|syslog-too", "info|syslog-only", "warning|syslog-errors-only"]
 
 
 def record_side(ctx, quick):
